@@ -147,7 +147,7 @@ func controllerMessage(r *prng.R, kind string, o MsgOpt, try int) *rec.Rec {
 			}
 		}
 	}
-	return m
+	return withDefaults(r, m)
 }
 
 // SwitchKinds: every switch-originated kind of C04.
